@@ -116,6 +116,7 @@ def suite(ctx: Ctx, drv, n_random: int, exhaustive_len: int = 5):
                 ctx.disagree("name-style", {"name": name, "style": st}, r, rep)
         ctx.suite("name-style", len(reqs), dis)
     end_to_end(ctx, 12)
+    underscore_fields(ctx)
 
 
 def end_to_end(ctx: Ctx, n: int):
@@ -151,8 +152,39 @@ def end_to_end(ctx: Ctx, n: int):
                          {"suite": "name-style", "fields": fields, "style": st.name})
 
 
+def underscore_fields(ctx: Ctx):
+    """C19 / C03: a legal field name made of underscores only (or private, or with a trailing underscore) must not make
+    generation fail under a name style where it succeeds without one; dump and load then behave as without the style for
+    these fields (they have no words to restyle)"""
+    from dataclasses import make_dataclass
+    from adaptix import Retort, name_mapping
+
+    def outcome(cls, st):
+        try:
+            r = Retort(recipe=[name_mapping(cls, name_style=st)])
+            r.get_loader(cls)
+            return ("ok", sorted(r.dump(cls(1, 2))))
+        except Exception as e:  # noqa: BLE001
+            return ("raises", type(e).__name__)
+
+    for fname in ("_", "__", "___", "_a", "a_", "a__"):
+        cls = make_dataclass("US", [(fname, int), ("pub", int)])
+        plain = outcome(cls, None)
+        for st in styles():
+            got = outcome(cls, st)
+            ctx.dist["name-style:underscore-field"] += 1
+            if plain[0] == "ok" and got[0] != "ok":
+                ctx.fail("name-style-generation", f"a model with the field {fname!r} works without a name style ({plain}) but under "
+                         f"{st.name}: {got}", {"suite": "name-style", "field": fname, "style": st.name})
+                return
+
+
 def replay(ctx: Ctx, case) -> bool:
     sts = {s.name: s for s in styles()}
+    if "field" in case:
+        before = len(ctx.failures)
+        underscore_fields(ctx)
+        return len(ctx.failures) > before
     st = sts[case["style"]]
     if "name" in case and "other" not in case:
         return rule_violation(case["name"], st, real_convert(case["name"], st)) is not None
